@@ -134,6 +134,8 @@ def run_case(case):
         any_nt = any_nt or nt
         if call_no:
             all_cls.append('sizer_reused')
+            if set(weights) != set(vectors[call_no - 1]):
+                all_cls.append('asset_set_changed_between_calls')
     cls, nt = sorted(set(all_cls)), any_nt
     return Result(cls, nontrivial=nt)
 
@@ -178,7 +180,10 @@ def cases(draw):
         if a not in case['prices']:
             case['hold_price'] = draw(price)
     if kind in ('mixed', 'ints') and draw(st.sampled_from([False, False, True])):
-        case['more_weights'] = [{a: _sweight(draw) for a in assets} for _ in range(draw(st.integers(1, 2)))]
+        case['more_weights'] = []
+        for _ in range(draw(st.integers(1, 2))):
+            sub = assets if draw(st.booleans()) else draw(st.lists(st.sampled_from(assets), min_size=1, unique=True))
+            case['more_weights'].append({a: _sweight(draw) for a in sub})
     case['via_qts'] = draw(st.sampled_from([False, False, True]))
     inv = draw(st.sampled_from([None] * 12 + ['leverage', 'nan_price']))
     if inv == 'leverage':
